@@ -9,7 +9,7 @@ Open Scope Z_scope.
 Record case := mk_case {
   c_tbl : table; c_now : Z; c_chain : list cel; c_fin : fin;
   (* observed from gorm *)
-  k_ret : rec; k_ra : Z; k_err : bool; k_writes : Z; k_tbl : table;
+  k_ret : rec; k_rets : list rec (* the caller's slice after Save(&slice) *); k_ra : Z; k_err : bool; k_writes : Z; k_tbl : table;
   k_setup_failed : bool     (* the harness could not set the table up / dump it *)
 }.
 
@@ -19,15 +19,16 @@ Definition model_agrees (c : case) : bool :=
   let m := step_repo (c_tbl c) (c_now c) (c_chain c) (c_fin c) in
   negb (k_setup_failed c)
   (* the hypotheses of model_meets_spec hold of this case *)
-  && sortedb (c_tbl c) && in_domain (c_chain c) (c_fin c)
+  && sortedb (c_tbl c) && (in_domain (c_chain c) (c_fin c) || slice_dom (c_fin c))
   && Bool.eqb (k_err c) (res_err m)
   && (k_err c || rec_eqb (k_ret c) (res_ret m))
+  && list_eqb rec_eqb (k_rets c) (step_rets (c_tbl c) (c_now c) (c_fin c))
   && (k_ra c =? res_ra m)
   && (k_writes c =? res_writes m)
   && tbl_eqb (k_tbl c) (res_tbl m).
 
 Definition spec_holds (c : case) : bool :=
   negb (k_setup_failed c)
-  && spec_step (c_tbl c) (c_now c) (c_chain c) (c_fin c) (obs_of c).
+  && spec_case (c_tbl c) (c_now c) (c_chain c) (c_fin c) (k_rets c) (obs_of c).
 
 Definition check_case (c : case) : N := code_of (model_agrees c) (spec_holds c).
